@@ -210,7 +210,7 @@ sexp sexp_finalize_port (sexp ctx, sexp self, sexp_sint_t n, sexp port) {
     sexp_port_openp(port) = 0;
 #if CHIBI_VERIF
     if (sexp_filenop(sexp_port_fd(port)) || sexp_port_stream(port))
-    sexp_verif_emit("\"e\":\"PortClose\",\"fd\":%d,\"gc\":%d,\"stream\":%d", sexp_filenop(sexp_port_fd(port)) ? (int)sexp_port_fileno(port) : -1, self == NULL, sexp_port_stream(port) ? fileno(sexp_port_stream(port)) : -1);
+    sexp_verif_emit("\"e\":\"PortClose\",\"fd\":%d,\"gc\":%d,\"stream\":%d", sexp_filenop(sexp_port_fd(port)) ? (int)sexp_port_fileno(port) : -1, self == NULL, (sexp_port_stream(port) && ! sexp_port_no_closep(port)) ? fileno(sexp_port_stream(port)) : -1);
 #endif
     if (sexp_oportp(port)) sexp_flush_forced(ctx, port);
 #ifndef PLAN9
